@@ -7,7 +7,7 @@ pub mod qx {
 use vstd::prelude::*;
 pub type Bytes = Seq<u8>;
 pub uninterp spec fn is_utf8(b: Bytes) -> bool;
-pub uninterp spec fn str_bytes(s: Seq<char>) -> Bytes;              // UTF-8 encoding
+pub open spec fn str_bytes(s: Seq<char>) -> Bytes { vstd::utf8::encode_utf8(s) }   // UTF-8 encoding (vstd's, so str::as_bytes agrees)
 pub uninterp spec fn xml_escape(s: Seq<char>) -> Bytes;             // escape < > & ' " then encode
 pub uninterp spec fn xml_unescape(b: Bytes) -> Option<Seq<char>>;   // decode entities of a raw payload
 pub uninterp spec fn attr_safe(b: Bytes) -> bool;                   // no raw < & " in an attribute value
@@ -79,6 +79,35 @@ impl Attribute {
     #[verifier::external_body]
     pub fn from_strs(kv: (&str, &str)) -> (r: Attribute) ensures r.key_raw() == str_bytes(kv.0@), r.value_raw() == xml_escape(kv.1@) { unimplemented!() }
 }
+impl<'a> vstd::std_specs::convert::FromSpecImpl<(&'a [u8], &'a [u8])> for Attribute {
+    open spec fn obeys_from_spec() -> bool { false }
+    uninterp spec fn from_spec(v: (&'a [u8], &'a [u8])) -> Self;
+}
+impl<'a> From<(&'a [u8], &'a [u8])> for Attribute {
+    /// "the value is stored as is": the caller must supply an escaped value
+    #[verifier::external_body]
+    fn from(kv: (&'a [u8], &'a [u8])) -> (r: Attribute) ensures r.key_raw() == kv.0@, r.value_raw() == kv.1@ { unimplemented!() }
+}
+impl<'a> vstd::std_specs::convert::FromSpecImpl<(&'a str, &'a str)> for Attribute {
+    open spec fn obeys_from_spec() -> bool { false }
+    uninterp spec fn from_spec(v: (&'a str, &'a str)) -> Self;
+}
+impl<'a> From<(&'a str, &'a str)> for Attribute {
+    /// "the value will be escaped"
+    #[verifier::external_body]
+    fn from(kv: (&'a str, &'a str)) -> (r: Attribute) ensures r.key_raw() == str_bytes(kv.0@), r.value_raw() == xml_escape(kv.1@) { unimplemented!() }
+}
+pub uninterp spec fn xml_partial_escape(s: Seq<char>) -> Seq<char>;   // escapes only < > &
+/// quick_xml::escape::{escape, partial_escape}
+#[verifier::external_body]
+pub fn escape(s: &str) -> (r: CowStr) ensures str_bytes(r@) == xml_escape(s@) { unimplemented!() }
+#[verifier::external_body]
+pub fn partial_escape(s: &str) -> (r: CowStr) ensures r@ == xml_partial_escape(s@) { unimplemented!() }
+impl CowStr {
+    #[verifier::external_body] pub fn as_bytes(&self) -> (r: &[u8]) ensures r@ == str_bytes(self@) { unimplemented!() }
+    #[verifier::external_body] pub fn as_ref(&self) -> (r: &str) ensures r@ == self@ { unimplemented!() }
+}
+pub assume_specification [String::as_bytes] (s: &String) -> (r: &[u8]) ensures r@ == str_bytes(s@);
 impl BytesStart {
     pub uninterp spec fn nm(&self) -> Bytes;
     pub uninterp spec fn attrs(&self) -> Seq<(Bytes, Bytes)>;    // (key, raw value) in order
